@@ -24,7 +24,10 @@ ASSUMPTIONS = ["no whitespace inside fields; bracket formats: no parentheses ins
 SRC = ["export", "brackets", "discobrackets", "tigerxml"]
 DEST = ["export", "brackets", "discobrackets", "tigerxml", "terminals"]
 RANK = {"export4": 3, "tigerxml": 3, "export": 2, "brackets": 1, "discobrackets": 1, "terminals": 0}
-WORDS_U = ["%%", "%%%x", "%", "#2020", "#12", "#100x", "der", "Hund", "bellt", "a", "x<y", "R&D", "\"q\"", "it's", "straße", "été", "1990", "x=y", "Ärger"]
+WORDS_U = ["%%", "%%%x", "%", "#2020", "#12", "#100x", "der", "Hund", "bellt", "a", "x<y", "R&D", "\"q\"", "it's", "straße", "été", "1990", "x=y", "Ärger",
+           # around and beyond the tab stops of the export columns (8, 16, 24 characters)
+           "sevench", "eightchr", "fifteen_chars__", "sixteen_chars___", "twentythree_characters_", "twentyfour_characters___",
+           "Donaudampfschifffahrtsgesellschaft"]
 WORDS_X = WORDS_U + ["日本", "ż"]
 
 
@@ -40,7 +43,7 @@ def mk_corpus(rng, cont, words):
         for n in trees.preorder(t):
             if not n.children:
                 n.data['lemma'] = rng.choice(["--", "lemma"])
-                n.data['morph'] = rng.choice(["--", "Nom.Sg"])
+                n.data['morph'] = rng.choice(["--", "Nom.Sg", "1234567", "12345678", "Nom.Sg.Masc.Pos", "Comp.Nom.Sg.Masc", "Comp.Nom.Sg.Masc.x"])
         t.data['sid'] = sid
         sid += rng.randint(1, 3)
         ts.append(t)
